@@ -199,6 +199,9 @@ def run_decode(tname_or_type, data, command_code=None, enc=None, strict=True, so
         kwargs["command_code"] = TPM_CC(command_code) if isinstance(command_code, int) else command_code
     if enc:
         kwargs["parameter_encryption"] = True
+    elif enc is False and tpm_type is Response and len(data) % 4 == 1:
+        # "no encryption expected" spelled out (False) must read like leaving the argument out (None); a quarter of the cases
+        kwargs["parameter_encryption"] = False
     if root:
         from tpmstream.common.path import Path
 
